@@ -97,6 +97,21 @@ def getRuleset (parsed : String → Except Err (List Rule)) (q : Req) (st : Stat
     let heap := postInit sel mul heap
     pure (rs, { heap := heap, cache := st.cache ++ [(key, rs)] })
 
+/-- `hmm_detection.check_options`: `some issue` is reported (`false`) when a fungal multiplier is not
+    positive (whatever the taxon), a requested rule name is not a rule of the strictness
+    (`_get_rules`), a requested category is unknown, or building the ruleset raises `ValueError`;
+    otherwise the ruleset has been built and cached.  A parse error of the rule files propagates. -/
+def checkOptions (parsed : String → Except Err (List Rule)) (allCats : List String) (q : Req) (st : State) :
+    Except Err (Bool × State) := do
+  let rules ← parsed q.strictness
+  let bad := decide (q.cmul.1 ≤ 0) || decide (q.nmul.1 ≤ 0)
+    || q.names.any (fun n => !(rules.map (·.name)).contains n) || q.cats.any (fun c => !allCats.contains c)
+  if bad then pure (false, st) else
+  match getRuleset parsed q st with
+  | .ok (_, st') => pure (true, st')
+  | .error .value => pure (false, st)
+  | .error e => .error e
+
 /-- a sequence of requests in one process; the rulesets handed out, and the final state -/
 def run (parsed : String → Except Err (List Rule)) : List Req → State → Except Err (List RS × State)
   | [], st => pure ([], st)
